@@ -397,6 +397,10 @@ class Unit:
                 m = re.match(r'^(.*?)((\s*\[\d*\])+)$', qt.strip())
                 if m:
                     return '%s %s%s' % (self.ctype(m.group(1)), name, m.group(2).replace(' ', '')), False
+                mv = re.match(r'^(.*?)\[([^\[\]]+)\]$', qt.strip())
+                if mv and n.get('kind') == 'VarDecl' and re.match(r'^[A-Za-z_0-9 +\-*()]+$', mv.group(2)):
+                    # variable-length array (GNU C++ extension, C99): the size expression is printed as written (local names are kept)
+                    return '%s %s[%s]' % (self.ctype(mv.group(1)), name, mv.group(2)), False
                 ct, is_ref = self.ctype2(qt)
                 return '%s %s' % (ct, name), is_ref
             except Unsupported as e:
@@ -979,10 +983,13 @@ class Unit:
                 self.dropped.append('%s in %s' % (name, self.cur)); return '((void)0)'
             cid = self.canon.get(rd['id'])
             if cid is not None and (cid in self.defn or self.want_stub(cid)):
-                self.count_call(self.func_cname(cid))
+                fcn = self.func_cname(cid)
+                alt = self.spec.get(('call_as_free', self.cur, fcn))       # child-view symbol for a recursive free function
+                if alt: self.used_keys.add(('call_as_free', self.cur, fcn))
+                self.count_call(alt or fcn)
                 self.need_func(cid)
                 a = self.call_args(rd['type']['qualType'], ks[1:], callee=cid)
-                call = '%s(%s)' % (self.func_cname(cid), ', '.join(a))
+                call = '%s(%s)' % (alt or fcn, ', '.join(a))
                 return self.deref_if_ref_return(rd['type']['qualType'], call)
             if self.models:
                 r = self.models.free_call(self, name, rd, ks[1:], n)
@@ -1290,7 +1297,7 @@ class Unit:
             self.scopes.append({'vars': [], 'kind': 'block'})
             self.w(p + '{')
             if init and init.get('kind'): self.stmt(init, ind + 1)
-            c = self.loop_cond(cond) if cond and cond.get('kind') else ''
+            c = self.loop_cond(cond) if cond and cond.get('kind') else '1'     # `for(;;)` silently loses its loop contract in CBMC 6.11; `for(;1;)` keeps it
             i = ''
             if inc and inc.get('kind'):
                 i = self.expr(inc)
@@ -1671,7 +1678,7 @@ class Unit:
             self.emit_func(cid)
         # unresolved spec keys -> error (a renamed function / changed loop count must not silently drop a contract)
         for key in self.spec:
-            if key[0] in ('contract', 'loop', 'ghost', 'call_as') and key not in self.used_keys:
+            if key[0] in ('contract', 'loop', 'ghost', 'call_as', 'call_as_free') and key not in self.used_keys:
                 if key[0] == 'contract' and key[1] not in self.emitted_protos:
                     if self.spec.get(('optional', key[1])): continue
                 raise Unsupported('spec key %r does not resolve in the extracted code' % (key,))
